@@ -1287,7 +1287,7 @@ class SRaggedObj(SRagged):
         if isinstance(idx, tuple) and len(idx) == 2 and isinstance(idx[0], slice) and idx[0] == full and isinstance(idx[1], (int, z3.ArithRef)):
             # r[:, c]: column c of every row (rows must be long enough: obligation)
             cc = idx[1]
-            d0, st0, ln0 = self.data_at, self.starts, self.lens
+            d0, st0, ln0 = (self.data_at if self.buf is None else self.buf.at), self.starts, self.lens     # a COPY: frozen at the current heap state
             ip.ctx.oblige("%s:ragged.column.inbounds@L%s" % (ip.ctx.fname, lineno),
                           Forall(lambda i: Implies(in_range(i, self.n), And(I(cc) < I(ln0(i)), I(cc) >= -I(ln0(i))))), "safety", lineno)
             return SArr.fresh(self.n, lambda i: d0(I(st0(i)) + I(M.wrapneg(cc, ln0(i)))), "int", self.enc)
